@@ -53,7 +53,7 @@ def body_kernel(E, shifts, far):
     E.prove(E.all([xl[0] <= out3[0], out3[0] <= xu[0]]), 'xopt-abs-output-exactly-in-box[shifts=%d]' % shifts)
 
 
-def body_scaling(E):
+def body_scaling(E, real_apply=False):
     """the scaling record is built by the real solve prologue (solve_main stubbed to capture it)"""
     from ..harness import Stop
     remove_scaling = E.get('remove_scaling')
@@ -70,6 +70,17 @@ def body_scaling(E):
         got['box'] = (xl_, xu_)
         raise Stop('solve_main')
     E.patch('solve_main', solve_main)
+    if not real_apply:
+        # the record (lower, upper-lower, upper) is built by the real prologue; the *forward* scaling of x0/xl/xu is replaced by its
+        # contract (unit box; proved for the real apply_scaling in the sibling harness) - its binary64 divisions only slow the query down
+        count = [0]
+
+        def apply_scaling(x_raw, scaling_changes):
+            if scaling_changes is None:
+                return x_raw
+            count[0] += 1
+            return x_raw * 0 + (E.const('0.5') if count[0] == 1 else (0 if count[0] == 2 else 1))
+        E.patch('apply_scaling', apply_scaling)
     try:
         E.get('solve')(lambda v: v, xl.copy(), bounds=(xl, xu), scaling_within_bounds=True, rhobeg=E.const('0.125'), rhoend=E.const('0.0009765625'),
                        maxfun=10)
@@ -78,9 +89,11 @@ def body_scaling(E):
     E.prove('sc' in got and got['sc'] is not None, 'scaling-record-built')
     if got.get('sc') is None:
         return
+    if real_apply:
+        E.prove(E.all([got['box'][0][0] == 0, got['box'][1][0] == 1]), 'scaled-box-is-exactly-the-unit-box')
+        return
     out = remove_scaling(x, got['sc'])
     E.prove(E.all([xl[0] <= out[0], out[0] <= xu[0]]), 'remove_scaling-of-unit-box-point-exactly-in-box')
-    E.prove(E.all([got['box'][0][0] == 0, got['box'][1][0] == 1]), 'scaled-box-is-exactly-the-unit-box')
 
 
 FUNCS = ['solver.solve', 'util.apply_scaling', 'model.Model.__init__', 'model.Model.shift_base', 'model.Model.as_absolute_coordinates', 'model.Model.xpt',
@@ -104,6 +117,14 @@ def harnesses(tier, seed):
     hs += step.step_harnesses(tier, seed, 'C01')
     hs += outer.outer_harnesses(tier, seed, 'C01')
     hs += runstart.start_harnesses(tier, seed, 'C01')
+    # with projections the box is one more projector: it must be the LAST one (then the returned point is its output: exact, C15)
+    from . import c09
+    for h in c09.harnesses(tier, seed):
+        if h.name.startswith('prologue['):
+            h.home = 'C01'
+            h.name = 'projections-' + h.name
+            h.expect = ['prologue:box-projector-appended-last-is-clip(lower,upper)']
+            hs.append(h)
     return hs
 
 
